@@ -9,7 +9,7 @@ NSLICES = 16
 RULE = (
     "E1 exhaustive grid of (L, Gamma): base: L in L<=2 over T({x,y},{-1,0,1,2},{0,1,2}) x Gamma in L<=1 over "
     "T({x,y},{-1,0,1},{0,1}) (+ no-context call); planted: every base list extended with a duplicate / a 2x or 1/2x "
-    "scaling / the sum of two terms / a copy loosened or tightened by one grid step, in both positions; l3: 3-term lists "
+    "scaling / the sum of two terms / a copy loosened or tightened by one grid step or by 1e-4, 1e-3, 1e-2 (just beyond the tolerance), in both positions; l3: 3-term lists "
     "(one 1/%d slice in quick, complete in thorough); v3: 3 variables (thorough); contract: constructor and "
     "simplify() of contracts over one interface. Oracle per execution: result terms are a sub-multiset of L "
     "(coefficients identical, constants within 1e-9 relative); no box point satisfies Gamma and R and breaks a dropped "
@@ -47,7 +47,8 @@ def _all():
     for L in grids.lists_upto(Tp, 2, minlen=1):
         plants = []
         for t in L:
-            plants += [t, _scale(t, 2), _scale(t, 0.5), [t[0], t[1] + 1], [t[0], t[1] - 1], [t[0], t[1] + 0.0001], [t[0], t[1] + 0.001]]
+            plants += [t, _scale(t, 2), _scale(t, 0.5), [t[0], t[1] + 1], [t[0], t[1] - 1], [t[0], t[1] + 0.0001], [t[0], t[1] + 0.001],
+                       [t[0], t[1] - 0.001], [t[0], t[1] - 0.01], [t[0], t[1] + 0.01]]
         if len(L) == 2:
             s = _add(L[0], L[1])
             if s[0]:
